@@ -1229,11 +1229,14 @@ htp_status_t htp_tx_state_response_complete_ex(htp_tx_t *tx, int hybrid_mode) {
         if (rc != HTP_OK) return rc;
     }
 
+    // Should we yield to inbound processing once this transaction has been let go of?
+    int yield = 0;
+
     if (!hybrid_mode) {
         // Check if the inbound parser is waiting on us. If it is, that means that
         // there might be request data that the inbound parser hasn't consumed yet.
         // If we don't stop parsing we might encounter a response without a request,
-        // which is why we want to return straight away before processing any data.
+        // which is why we want to return before processing any more data.
         //
         // This situation will occur any time the parser needs to see the server
         // respond to a particular situation before it can decide how to proceed. For
@@ -1245,16 +1248,13 @@ htp_status_t htp_tx_state_response_complete_ex(htp_tx_t *tx, int hybrid_mode) {
         // waiting on a response that we have not seen yet.
         if ((tx->connp->in_status == HTP_STREAM_DATA_OTHER) && (tx->connp->in_tx == tx->connp->out_tx)) {
             HTP_VERIF_TP(tx->connp, tx, "res_complete_early_yield");
-            return HTP_DATA_OTHER;
-        }
-
-        // Do we have a signal to yield to inbound processing at
-        // the end of the next transaction?
-        if (tx->connp->out_data_other_at_tx_end) {
-            // We do. Let's yield then.
+            yield = 1;
+        } else if (tx->connp->out_data_other_at_tx_end) {
+            // We have a signal to yield to inbound processing at
+            // the end of this transaction.
             tx->connp->out_data_other_at_tx_end = 0;
             HTP_VERIF_TP(tx->connp, tx, "res_complete_early_yield");
-            return HTP_DATA_OTHER;
+            yield = 1;
         }
     }
 
@@ -1271,7 +1271,9 @@ htp_status_t htp_tx_state_response_complete_ex(htp_tx_t *tx, int hybrid_mode) {
 
     connp->out_state = htp_connp_RES_IDLE;
 
-    return HTP_OK;
+    // The response side is done with the transaction before it yields; otherwise the
+    // transaction would be finalized a second time when response parsing resumes.
+    return yield ? HTP_DATA_OTHER : HTP_OK;
 }
 
 /**
